@@ -12,9 +12,11 @@ EXTENDS GeomModel
 Aff == INSTANCE Affinity
 
 (* ---------------- exact affinities on the lattice ---------------- *)
-\* TimeInterval and BoundingBox with zero buffers: nothing is buffered under any reading of C06
+\* TimeStamp, TimeInterval and BoundingBox with zero buffers: nothing grows under any reading of C06.
+\* <<i, u>> with u = 0 when both have zero extent (a TimeStamp, a zero-length interval, a zero-duration box): the
+\* ratio is then undefined; the implementation's zero-union guard makes it 0 (ZeroUnion below).
 AffRat(a, b) ==
-    IF a.type = "TimeInterval" \/ b.type = "TimeInterval"
+    IF a.type \in Aff!TimeKinds \/ b.type \in Aff!TimeKinds
     THEN Aff!TimeIoU(TimeExtent(a, Aff!FMAXT), TimeExtent(b, Aff!FMAXT))
     ELSE Aff!BoxIoU(a.coordinates, b.coordinates)
 RECURSIVE Gcd(_, _)
@@ -22,11 +24,13 @@ Gcd(a, b) == IF b = 0 THEN a ELSE Gcd(b, a % b)
 Lcm(a, b) == (a \div Gcd(a, b)) * b
 RECURSIVE LcmSet(_)
 LcmSet(S) == IF S = {} THEN 1 ELSE LET x == CHOOSE x \in S : TRUE IN Lcm(x, LcmSet(S \ {x}))
-Denoms(src, tgt) == {AffRat(src[i], tgt[j])[2] : i \in DOMAIN src, j \in DOMAIN tgt}
-\* W[i][j] = affinity(src[i], tgt[j]) * D, D = lcm of the denominators (all > 0: proper geometries only)
+ZeroUnion(a, b) == AffRat(a, b)[2] = 0
+Guarded(r) == IF r[2] = 0 THEN <<0, 1>> ELSE r                       \* "if union == 0: return 0"
+Denoms(src, tgt) == {Guarded(AffRat(src[i], tgt[j]))[2] : i \in DOMAIN src, j \in DOMAIN tgt}
+\* W[i][j] = affinity(src[i], tgt[j]) * D, D = lcm of the denominators; a zero-union pair counts 0
 ExactW(src, tgt) ==
     LET D == LcmSet(Denoms(src, tgt)) IN
-    [i \in DOMAIN src |-> [j \in DOMAIN tgt |-> LET r == AffRat(src[i], tgt[j]) IN r[1] * (D \div r[2])]]
+    [i \in DOMAIN src |-> [j \in DOMAIN tgt |-> LET r == Guarded(AffRat(src[i], tgt[j])) IN r[1] * (D \div r[2])]]
 
 (* ---------------- one-to-one pairings and their value ---------------- *)
 OneToOne(P) == \A p, q \in P : p # q => (p[1] # q[1] /\ p[2] # q[2])
@@ -68,9 +72,13 @@ NTgt(o) == IF IsLat(o) THEN Len(o.in.tgt) ELSE Len(o.in.kt)
 N20(l)  == l[2] * 1048576 + l[3] * 16 + (l[4] \div 4096)                  \* floor of a value of [0,1] in units of 2^-20
 ObservedW(o, run) == [i \in 1..NSrc(o) |-> [j \in 1..NTgt(o) |-> N20(run.aff[i][j].l)]]
 AffOk(o, run) == \A i \in 1..NSrc(o), j \in 1..NTgt(o) : Aff!InUnit(run.aff[i][j])
-WOf(o, run) == IF IsLat(o) THEN ExactW(o.in.src, o.in.tgt) ELSE ObservedW(o, run)
+\* The exact matrix judges a lattice run as long as the code's own compute_affinity is 0 on the zero-union pairs (where
+\* C06 leaves the value open); should an implementation choose another value there, the observed matrix judges instead.
+UseExact(o, run) == IsLat(o) /\ \A i \in 1..NSrc(o), j \in 1..NTgt(o) :
+                                  ZeroUnion(o.in.src[i], o.in.tgt[j]) => run.aff[i][j].l[1] = 0
+WOf(o, run) == IF UseExact(o, run) THEN ExactW(o.in.src, o.in.tgt) ELSE ObservedW(o, run)
 \* floors move a sum of k entries by less than k
-Tol(o) == IF IsLat(o) THEN 0 ELSE Min(NSrc(o), NTgt(o))
+Tol(o, run) == IF UseExact(o, run) THEN 0 ELSE Min(NSrc(o), NTgt(o))
 
 Clauses == {"Returns", "Cover", "PositiveOnly", "ReportedAffinity", "UnpairedZero", "Optimal"}
 HoldsRun(cl, o, run) ==
@@ -79,13 +87,13 @@ HoldsRun(cl, o, run) ==
     ELSE IF run.raised # "" \/ ~AffOk(o, run) THEN TRUE                 \* reported once, by Returns
     ELSE CASE cl = "Cover"        -> CoverOf(M, n, m)
            [] cl = "PositiveOnly" ->
-                 IF IsLat(o) THEN PositiveOf(M, WOf(o, run), n, m)
+                 IF UseExact(o, run) THEN PositiveOf(M, WOf(o, run), n, m)
                  ELSE InRange(M, n, m) => \A p \in PairsOf(M) : run.aff[p[1]][p[2]].l[1] = 1     \* the sign of the double, not its floor
            [] cl = "ReportedAffinity" ->
                  InRange(M, n, m) => \A k \in DOMAIN M : IsPair(M[k]) =>
                      /\ M[k].a.h = run.aff[Some(M[k].s)][Some(M[k].t)].h             \* exactly the code's own affinity
                      /\ IsLat(o) => Aff!EqRat(M[k].a, AffRat(o.in.src[Some(M[k].s)], o.in.tgt[Some(M[k].t)]))
            [] cl = "UnpairedZero" -> \A k \in DOMAIN M : ~IsPair(M[k]) => Aff!IsZero(M[k].a)
-           [] cl = "Optimal"      -> OptimalOf(M, WOf(o, run), n, m, Tol(o))
+           [] cl = "Optimal"      -> OptimalOf(M, WOf(o, run), n, m, Tol(o, run))
 Holds(cl, o) == \A u \in DOMAIN o.out.runs : HoldsRun(cl, o, o.out.runs[u])
 =============================================================================
